@@ -97,12 +97,15 @@ class Gen:
     def enc_msg(self, sets, seq=None, length=None, version=None):
         rng = self.rng
         body = b"".join(sets)
+        # observation domain / source id: a handful of small values recur (an exporter has one, or a few, and keeps them), the rest random;
+        # templates are the exporter ADDRESS's: what the header says here has no part in it
+        dom = rng.choice([0, 1, 2, 7]) if rng.random() < 0.7 else rng.randrange(2 ** 32)
         if self.proto == "ipfix":
             ln = (16 + len(body)) & 0xffff if length is None else length
             return struct.pack(">HHIII", 10 if version is None else version, ln, rng.randrange(2 ** 32),
-                               rng.randrange(2 ** 32) if seq is None else seq, rng.randrange(2 ** 32)) + body
+                               rng.randrange(2 ** 32) if seq is None else seq, dom) + body
         return struct.pack(">HHIIII", 9 if version is None else version, rng.randrange(65536), rng.randrange(2 ** 32),
-                           rng.randrange(2 ** 32), rng.randrange(2 ** 32) if seq is None else seq, rng.randrange(2 ** 32)) + body
+                           rng.randrange(2 ** 32), rng.randrange(2 ** 32) if seq is None else seq, dom) + body
 
     def tpl_set_id(self, opts):
         return (3 if opts else 2) if self.proto == "ipfix" else (1 if opts else 0)
